@@ -20,6 +20,12 @@ def harnesses(tier):
                            pool_off=True, unwind=12, unwindset=['mmd_export_token_html:3', 'mmd_export_token_tree_html:3', 'has.0:170', 'has.1:170', 'strlen.0:24'], object_bits=12, timeout=1500, mem_gb=8, replay=False,
                            functional=True, bounds='2 explicit calls (%s)%s, any random seed base, extension bits RANDOM_FOOT/SMART/COMPLETE' % ('first use + re-use' if reuse else 'two first uses', ' + a nested first use while the list is printed' if nest else ''),
                            desc='%s anchors: call href == entry id, back-link == id of first call, entries 1..n, every used note listed' % nm))
+    rm = ['mmd_start_complete_html', 'mmd_end_complete_html', 'process_definition_stack', 'process_header_stack', 'process_table_stack', 'identify_global_search_terms', 'process_metadata_stack', 'scratch_pad_free']
+    hs.append(dict(name='c10_list_order', src='c10/listorder.c', defs=dict(DS_CAP=8), pool_off=True,
+                   units=[dict(src='repo:writer.c', remove=rm), 'repo:token.c', 'repo:stack.c', 'repo:object_pool.c', 'repo:char.c', 'common/ds_model.c'],
+                   nobody_ok='*', ignore_failed=['no-body'], unwind=18, timeout=900, mem_gb=8, functional=True, replay=False,
+                   bounds='body and list entries registering 0..1 first uses of each note kind; all extension words; HTML',
+                   desc='mmd_engine_export_token_tree (HTML): every note first called in the body or in an entry of another list is known when its own list is printed'))
     hs.append(dict(name='c10_heading_ids', src='c10/headings.c', defs=dict(DS_CAP=16), pool_off=True,
                    units=[dict(src='repo:writer.c', remove=['manual_label_from_header', 'label_from_token', 'link_new'], cflags=['-include', 'vh_libc.h']), 'repo:token.c', 'repo:stack.c', 'repo:object_pool.c', 'repo:char.c', 'common/ds_model.c'],
                    nobody_ok='*', ignore_failed=['no-body'], unwind=12, timeout=600, mem_gb=6, functional=True,
